@@ -184,3 +184,59 @@ package keeper
 //@ func (MsgServer) RecordBatch
 //@   ensures err == nil ==> addrOK(1, req.Submitter)
 //@   assigns events
+
+// ---- genesis (C16) --------------------------------------------------------------------------------------
+
+//@ func (Keeper) ExportGenesis
+//@   requires Params != None
+//@   requires forall k `(Pair Int Bytes)` :: ProvenWithdrawals[k] != None ==> len(snd(k)) == 32                                                    // INV_CLAIM: claim keys are 32-byte leaf hashes (RecordProvenWithdrawal)
+//@   ensures ret0.Params == val(Params) && ret0.NextBridgeId == seqOr1(NextBridgeId)                                                          // C16: params_and_next_bridge_id_exported
+//@   ensures len(ret0.Bridges) == card(BridgeConfigs)                                                                                          // C16: one_record_per_bridge
+//@   ensures forall b uint64 :: BridgeConfigs[b] != None ==> (exists t int :: 0 <= t && t < len(ret0.Bridges) && ret0.Bridges[t].BridgeId == b)   // C16: every_bridge_exported
+//@   ensures forall t int :: 0 <= t && t < len(ret0.Bridges) ==> BridgeConfigs[ret0.Bridges[t].BridgeId] == Some(ret0.Bridges[t].BridgeConfig)
+//@        && ret0.Bridges[t].NextL1Sequence == nextOr1(NextL1Sequences[ret0.Bridges[t].BridgeId])
+//@        && ret0.Bridges[t].NextOutputIndex == nextOr1(NextOutputIndexes[ret0.Bridges[t].BridgeId])                                              // C16: config_and_counters_exported
+//@   ensures forall t int :: 0 <= t && t < len(ret0.Bridges) ==> (forall u int :: 0 <= u && u < len(ret0.Bridges[t].Proposals) ==>
+//@        OutputProposals[(ret0.Bridges[t].BridgeId, ret0.Bridges[t].Proposals[u].OutputIndex)] == Some(ret0.Bridges[t].Proposals[u].OutputProposal))   // C16: only_stored_outputs_exported
+//@   ensures forall t int :: 0 <= t && t < len(ret0.Bridges) ==> (forall i uint64 :: OutputProposals[(ret0.Bridges[t].BridgeId, i)] != None ==>
+//@        (exists u int :: 0 <= u && u < len(ret0.Bridges[t].Proposals) && ret0.Bridges[t].Proposals[u].OutputIndex == i))                            // C16: every_output_exported
+//@   ensures forall t int :: 0 <= t && t < len(ret0.Bridges) ==> (forall u int :: 0 <= u && u < len(ret0.Bridges[t].TokenPairs) ==>
+//@        TokenPairs[(ret0.Bridges[t].BridgeId, ret0.Bridges[t].TokenPairs[u].L2Denom)] == Some(ret0.Bridges[t].TokenPairs[u].L1Denom))               // C16: only_stored_token_pairs_exported
+//@   ensures forall t int :: 0 <= t && t < len(ret0.Bridges) ==> (forall d bytes :: TokenPairs[(ret0.Bridges[t].BridgeId, d)] != None ==>
+//@        (exists u int :: 0 <= u && u < len(ret0.Bridges[t].TokenPairs) && ret0.Bridges[t].TokenPairs[u].L2Denom == d))                              // C16: every_token_pair_exported
+//@   ensures forall t int :: 0 <= t && t < len(ret0.Bridges) ==> (forall u int :: 0 <= u && u < len(ret0.Bridges[t].ProvenWithdrawals) ==>
+//@        ProvenWithdrawals[(ret0.Bridges[t].BridgeId, ret0.Bridges[t].ProvenWithdrawals[u])] != None)                                              // C16: only_recorded_claims_exported
+//@   ensures forall t int :: 0 <= t && t < len(ret0.Bridges) ==> (forall h bytes :: len(h) == 32 && ProvenWithdrawals[(ret0.Bridges[t].BridgeId, h)] != None ==>
+//@        (exists u int :: 0 <= u && u < len(ret0.Bridges[t].ProvenWithdrawals) && ret0.Bridges[t].ProvenWithdrawals[u] == h))                        // C16: every_claim_exported
+//@   ensures forall t int :: 0 <= t && t < len(ret0.Bridges) ==> (forall u int :: 0 <= u && u < len(ret0.Bridges[t].BatchInfos) ==>
+//@        (exists i uint64 :: BatchInfos[(ret0.Bridges[t].BridgeId, i)] == Some(ret0.Bridges[t].BatchInfos[u])))                                     // C16: only_stored_batch_infos_exported
+//@   ensures forall t int :: 0 <= t && t < len(ret0.Bridges) ==> (forall i uint64 :: BatchInfos[(ret0.Bridges[t].BridgeId, i)] != None ==>
+//@        (exists u int :: 0 <= u && u < len(ret0.Bridges[t].BatchInfos) && ret0.Bridges[t].BatchInfos[u] == val(BatchInfos[(ret0.Bridges[t].BridgeId, i)])))   // C16: every_batch_info_exported
+//@   walk 0 invariant len(bridges) == $i
+//@   walk 0 invariant forall t int :: 0 <= t && t < $i ==> bridges[t].BridgeId == $key(t) && BridgeConfigs[bridges[t].BridgeId] == Some(bridges[t].BridgeConfig)
+//@        && bridges[t].NextL1Sequence == nextOr1(NextL1Sequences[bridges[t].BridgeId]) && bridges[t].NextOutputIndex == nextOr1(NextOutputIndexes[bridges[t].BridgeId])
+//@   walk 0 invariant forall t int :: 0 <= t && t < $i ==> (forall u int :: 0 <= u && u < len(bridges[t].Proposals) ==>
+//@        OutputProposals[(bridges[t].BridgeId, bridges[t].Proposals[u].OutputIndex)] == Some(bridges[t].Proposals[u].OutputProposal))
+//@   walk 0 invariant forall t int :: 0 <= t && t < $i ==> (forall i uint64 :: OutputProposals[(bridges[t].BridgeId, i)] != None ==>
+//@        (exists u int :: 0 <= u && u < len(bridges[t].Proposals) && bridges[t].Proposals[u].OutputIndex == i))
+//@   walk 0 invariant forall t int :: 0 <= t && t < $i ==> (forall u int :: 0 <= u && u < len(bridges[t].TokenPairs) ==>
+//@        TokenPairs[(bridges[t].BridgeId, bridges[t].TokenPairs[u].L2Denom)] == Some(bridges[t].TokenPairs[u].L1Denom))
+//@   walk 0 invariant forall t int :: 0 <= t && t < $i ==> (forall d bytes :: TokenPairs[(bridges[t].BridgeId, d)] != None ==>
+//@        (exists u int :: 0 <= u && u < len(bridges[t].TokenPairs) && bridges[t].TokenPairs[u].L2Denom == d))
+//@   walk 0 invariant forall t int :: 0 <= t && t < $i ==> (forall u int :: 0 <= u && u < len(bridges[t].ProvenWithdrawals) ==>
+//@        ProvenWithdrawals[(bridges[t].BridgeId, bridges[t].ProvenWithdrawals[u])] != None)
+//@   walk 0 invariant forall t int :: 0 <= t && t < $i ==> (forall h bytes :: len(h) == 32 && ProvenWithdrawals[(bridges[t].BridgeId, h)] != None ==>
+//@        (exists u int :: 0 <= u && u < len(bridges[t].ProvenWithdrawals) && bridges[t].ProvenWithdrawals[u] == h))
+//@   walk 0 invariant forall t int :: 0 <= t && t < $i ==> (forall u int :: 0 <= u && u < len(bridges[t].BatchInfos) ==>
+//@        (exists i uint64 :: BatchInfos[(bridges[t].BridgeId, i)] == Some(bridges[t].BatchInfos[u])))
+//@   walk 0 invariant forall t int :: 0 <= t && t < $i ==> (forall i uint64 :: BatchInfos[(bridges[t].BridgeId, i)] != None ==>
+//@        (exists u int :: 0 <= u && u < len(bridges[t].BatchInfos) && bridges[t].BatchInfos[u] == val(BatchInfos[(bridges[t].BridgeId, i)])))
+//@   walk 1 invariant len(proposals) == $i
+//@   walk 1 invariant forall u int :: 0 <= u && u < $i ==> proposals[u].OutputIndex == snd($key(u)) && OutputProposals[$key(u)] == Some(proposals[u].OutputProposal)
+//@   walk 2 invariant len(provenWithdrawals) == $i
+//@   walk 2 invariant forall u int :: 0 <= u && u < $i ==> provenWithdrawals[u] == snd($key(u))
+//@   walk 3 invariant len(tokenPairs) == $i
+//@   walk 3 invariant forall u int :: 0 <= u && u < $i ==> tokenPairs[u].L2Denom == snd($key(u)) && TokenPairs[$key(u)] == Some(tokenPairs[u].L1Denom)
+//@   walk 4 invariant len(batchInfos) == $i
+//@   walk 4 invariant forall u int :: 0 <= u && u < $i ==> BatchInfos[$key(u)] == Some(batchInfos[u])
+//@   assigns \nothing
